@@ -56,9 +56,13 @@ func c04Scenarios(tier string) []schedh.Scenario {
 	// targets needed by a subinclude() are discovered (and forced to build) while another package is parsed
 	sub := map[string]string{"r/BUILD": "subinclude(\"//p:a\")\n" + rule("x"), "p/BUILD": rule("a", "//q:b"), "q/BUILD": rule("b")}
 	add("subinclude", sub, "//r:x")
-	add("subinclude-and-direct", sub, "//p:a", "//r:x")
+	qn := []int{2}
+	if tier == "thorough" {
+		add("subinclude-and-direct", sub, "//p:a", "//r:x")
+		qn = []int{2, 3}
+	}
 	// the same in a query-style invocation: //p:a is first merely activated, then upgraded to "must be built" by the subinclude
-	for _, n := range []int{2, 3} {
+	for _, n := range qn {
 		out = append(out, schedh.Scenario{Name: fmt.Sprintf("query-subinclude-n%d", n), Files: sub, Targets: []string{"//p:a", "//r:x"}, Threads: n, Query: true})
 	}
 	add("postbuild", map[string]string{"p/BUILD": "def _pb(name, output):\n    build_rule(name=\"h\", cmd=\"FAKE\", outs=[\"h.out\"])\n    add_dep(\"a\", \":h\")\n" +
